@@ -396,7 +396,11 @@ impl Shard {
             self.rep.inconclusive(format!("harness error: {}", e));
             self.stop = true;
         }
-        if let Some(v) = out.viols.first() {
+        // the first oracle hit decides; hits recorded for the same step under other properties (the same observation
+        // seen by two oracles) are used when the first one belongs to a property this check does not report
+        let first_step = out.viols.first().map(|v| v.step);
+        let chosen = out.viols.iter().find(|v| Some(v.step) == first_step && self.cfg.props.contains(attribute(v, &self.cfg.mode))).or(out.viols.first());
+        if let Some(v) = chosen {
             let prop = attribute(v, &self.cfg.mode);
             let mut replay = self.base_args.clone();
             replay.extend_from_slice(idx_args);
